@@ -261,6 +261,86 @@ def run_argv0_job(job, build):
     return out
 
 
+def run_print_job(job, build):
+    """print_message against the prediction of run_inner (unwrap_stdout / unwrap_stderr): for every
+    ParseFailure variant (the `full` flag of Stdout symbolic, the width symbolic) the document is rendered
+    with the same `full` argument by both, to the stream of its class, help/errors with one trailing
+    newline, completion text verbatim.  Doc::render_console is cut and records its arguments."""
+    import z3
+    from mirsym.models import val_eq
+    prog = tok.load_program(build, "none")
+    models = dict(tok.TOK_MODELS)
+    models.update(FM.FMT_MODELS)
+
+    def m_render_console(ex, c, args):
+        ex.cut_log.append(("render_console", rda(args[0]), args[1], args[3]))
+        return "<rendered>"
+    models["Doc::render_console"] = m_render_console
+    ex = tok.new_exec(prog, models=models, step_budget=400000)
+    out = {"stats": None, "cex": [], "inconclusive": [], "samples": [], "nontrivial": 0, "classes": {}, "obligations": 0}
+    L = prog.layout
+    vn = job["variant"]
+
+    def harness(ex):
+        vi = L.variant_index("ParseFailure", vn)
+        full = ex.fresh("full", "bool")
+        width = ex.fresh("width", 64)
+        doc = Opaque("doc", ("d",))
+        if vn == "Stdout":
+            pf = Adt("ParseFailure", vi, (doc, full))
+        elif vn == "Stderr":
+            pf = Adt("ParseFailure", vi, (doc,))
+        else:
+            pf = Adt("ParseFailure", vi, ("COMPLETION-TEXT",))
+        n0 = len(ex.cut_log)
+        ex.call(parse_callee("ParseFailure::print_message"), [Ref(Cell(pf, "pf"), ()), width])
+        printed = [c for c in ex.cut_log[n0:] if c[0] == "render_console"]
+        prints = [n for n in ex.notes if n[0] == "print"]
+        n1 = len(ex.cut_log)
+        text = ex.call(parse_callee("ParseFailure::unwrap_stderr" if vn == "Stderr" else "ParseFailure::unwrap_stdout"), [pf])
+        predicted = [c for c in ex.cut_log[n1:] if c[0] == "render_console"]
+        return (full, width, printed, prints, predicted, text)
+
+    def on_path(ex, r):
+        out["obligations"] += 1
+        if ex.pc:
+            out["nontrivial"] += 1
+        if r.kind != "ok":
+            out["cex"].append({"kind": "print-message", "why": "ParseFailure::%s: %r" % (vn, r.info), "argv": None, "grammar": None})
+            return
+        full, width, printed, prints, predicted, text = r.value
+        bad = None
+        want_stream = "stderr" if vn == "Stderr" else "stdout"
+        if len(prints) != 1 or prints[0][1] != want_stream:
+            bad = "printed %r, expected one print to %s" % ([p[1] for p in prints], want_stream)
+        elif vn == "Completion":
+            if printed or predicted:
+                bad = "completion text is rendered instead of being passed through"
+            elif rda(text) != "COMPLETION-TEXT" or "COMPLETION-TEXT" not in repr(prints[0]):
+                bad = "completion text differs between print_message and unwrap_stdout"
+        elif len(printed) != 1 or len(predicted) != 1:
+            bad = "render_console called %d / %d times" % (len(printed), len(predicted))
+        else:
+            eq = val_eq(ex, printed[0][2], predicted[0][2])
+            if eq is False or (eq is not True and ex.prove(eq) is not None):
+                bad = "print_message renders with full=%r, run_inner's text (unwrap_%s) with full=%r" % (printed[0][2], want_stream, predicted[0][2])
+            wq = val_eq(ex, printed[0][3], width)
+            if not bad and (wq is False or (wq is not True and ex.prove(wq) is not None)):
+                bad = "print_message ignores the requested width"
+        if bad:
+            out["cex"].append({"kind": "print-message", "why": "ParseFailure::%s: %s" % (vn, bad), "argv": None, "grammar": None})
+        else:
+            out["samples"].append({"variant": vn, "stream": want_stream, "print": repr(prints[0])[:200]})
+    try:
+        ex.explore(harness, on_path)
+    except (Unmodelled, BoundExceeded, ExecError) as e:
+        out["inconclusive"].append("%s %s [%s]" % (type(e).__name__, e, "/".join(getattr(e, "stack", None) or ex.callstack[-3:])))
+    out["stats"] = dict(ex.stats)
+    out["models_used"] = dict(ex.model_hits)
+    out["fn_hits"] = dict(ex.fn_hits)
+    return out
+
+
 def run_exit_code_job(job, build):
     prog = tok.load_program(build, "none")
     ex = tok.new_exec(prog)
@@ -296,6 +376,8 @@ def run_exit_code_job(job, build):
 
 def make_jobs(tier, seed, build):
     jobs = [{"id": "exit_code", "kind": "exit_code"}]
+    for vn in ("Stdout", "Stderr", "Completion"):
+        jobs.append({"id": "print:%s" % vn, "kind": "print", "variant": vn})
     for n in range(0, (4 if tier == "quick" else 5) + 1):
         jobs.append({"id": "argv0:%d" % n, "kind": "argv0", "len": n})
     nmax = 3 if tier == "quick" else 4
@@ -309,6 +391,8 @@ def make_jobs(tier, seed, build):
 def run_job(job, build):
     if job["kind"] == "exit_code":
         return run_exit_code_job(job, build)
+    if job["kind"] == "print":
+        return run_print_job(job, build)
     if job["kind"] == "argv0":
         return run_argv0_job(job, build)
     return run_run_job(job, build)
